@@ -53,8 +53,8 @@ def gen_cases(rng, tier):
 
 def oracle(chk, c, o):
     if not o.get("ok"):
-        if o.get("exc") in ("ValueError",):
-            return 0           # geometry rejected by pygfunction: not a valid borehole
+        if o.get("exc") == "ValueError" and ("_check_geometry" in (o.get("msg") or "") or "pygfunction" in (o.get("msg") or "")):
+            return 0           # geometry rejected by pygfunction (pipes do not fit): not a valid borehole
         chk.violation("to-single", c, {"exception": o.get("exc"), "msg": o.get("msg")}, "conversion to the equivalent single U-tube succeeds for a geometry that fits")
         return 0
     if c["kind"] == "su":
